@@ -225,6 +225,8 @@ type runner struct {
 	closeTrig    chan struct{}
 	trigOnce     sync.Once
 	closeRet     chan struct{}
+	armed        chan struct{} // hazard scenarios: closed when the last step of the model schedule is about to be taken
+	armOnce      sync.Once
 	copyN        atomic.Int64
 	maxCancelLat atomic.Int64
 }
@@ -236,6 +238,7 @@ type openCall struct {
 }
 
 func (r *runner) fireClose() { r.trigOnce.Do(func() { close(r.closeTrig) }) }
+func (r *runner) arm()       { r.armOnce.Do(func() { close(r.armed) }) }
 
 // call runs one API call on goroutine g with begin/end events and panic capture.
 func (r *runner) call(g int, op string, ctxMode, ac int, f func() error) string {
@@ -503,7 +506,7 @@ func RunScenario(sc Scenario) *Result {
 	}
 	baseline := bleveGoroutines(allStacks())
 
-	r := &runner{sc: sc, rec: rec, res: res, open: map[int]*openCall{}, closeTrig: make(chan struct{}), closeRet: make(chan struct{})}
+	r := &runner{sc: sc, rec: rec, res: res, open: map[int]*openCall{}, closeTrig: make(chan struct{}), closeRet: make(chan struct{}), armed: make(chan struct{})}
 	h := &hookCfg{rec: rec, seed: splitmix(uint64(sc.Seed)), perturb: sc.Perturb, closeBegun: make(chan struct{}), gateFire: r.fireClose}
 	if p, k, ok := closeAtGate(sc.CloseAt); ok {
 		h.gatePoint, h.gateK = p, k
@@ -512,83 +515,111 @@ func RunScenario(sc Scenario) *Result {
 	hookState.Store(h)
 	defer hookState.Store(nil)
 
-	idx, err := openIndex(sc)
-	if err != nil {
-		res.Err = "open: " + err.Error()
-		return res
-	}
-	r.idx = idx
-	if a, _ := idx.Advanced(); a != nil {
-		if s, ok := a.(*scorch.Scorch); ok {
-			r.adv = s
+	allDone := make(chan struct{})
+	setupErr := make(chan string, 1)
+	closerG := sc.Workers
+	const setupG = 97
+	// Index creation and population run under the same watchdog as the workers
+	// (creating a scorch index already performs a batch): they are recorded calls too.
+	go func() {
+		var idx bleve.Index
+		var oerr error
+		if r.call(setupG, "open", 0, 0, func() error { idx, oerr = openIndex(sc); return oerr }) != "ok" {
+			setupErr <- fmt.Sprintf("open: %v", oerr)
+			return
 		}
-	}
-	prng := rand.New(rand.NewSource(sc.Seed))
-	for done := 0; done < sc.Prepop; {
-		b := idx.NewBatch()
-		for i := 0; i < 400 && done < sc.Prepop; i++ {
-			_ = b.Index(fmt.Sprintf("p%d", done), doc(prng))
-			done++
+		r.idx = idx
+		if a, _ := idx.Advanced(); a != nil {
+			if s, ok := a.(*scorch.Scorch); ok {
+				r.adv = s
+			}
 		}
-		if err := idx.Batch(b); err != nil {
-			res.Err = "prepopulate: " + err.Error()
+		prng := rand.New(rand.NewSource(sc.Seed))
+		for done := 0; done < sc.Prepop; {
+			b := idx.NewBatch()
+			for i := 0; i < 400 && done < sc.Prepop; i++ {
+				_ = b.Index(fmt.Sprintf("p%d", done), doc(prng))
+				done++
+			}
+			var berr error
+			if r.call(setupG, "batch", 0, 0, func() error { berr = idx.Batch(b); return berr }) != "ok" {
+				setupErr <- fmt.Sprintf("prepopulate: %v", berr)
+				return
+			}
+		}
+		h.gateHits.Store(0)
+		h.released.Store(false)
+
+		var wg sync.WaitGroup
+		budgetDone := make(chan struct{})
+		var budgetWG sync.WaitGroup
+		switch sc.Hazard {
+		case "":
+			for w := 0; w < sc.Workers; w++ {
+				wg.Add(1)
+				budgetWG.Add(1)
+				go func(g int) {
+					defer wg.Done()
+					rng := rand.New(rand.NewSource(sc.Seed*1000003 + int64(g)*7919 + 1))
+					ac := false
+					for i := 0; i < sc.Ops; i++ {
+						ac = r.oneOp(g, rng, false, ac)
+					}
+					budgetWG.Done()
+					<-r.closeRet
+					for i := 0; i < sc.Late; i++ {
+						ac = r.oneOp(g, rng, true, ac)
+					}
+				}(w)
+			}
+			go func() { budgetWG.Wait(); close(budgetDone) }()
+			// the closer: Close is called exactly once, at the seeded moment
+			wg.Add(1)
+			go func() {
+				defer wg.Done()
+				select {
+				case <-r.closeTrig:
+				case <-budgetDone:
+				}
+				r.mu.Lock()
+				for _, oc := range r.open {
+					res.InFlightAtClose = append(res.InFlightAtClose, oc.op)
+				}
+				r.mu.Unlock()
+				sort.Strings(res.InFlightAtClose)
+				r.call(closerG, "close", 0, 0, idx.Close)
+				close(r.closeRet)
+			}()
+		default:
+			runHazard(r, sc, &wg)
+		}
+		wg.Wait()
+		close(allDone)
+	}()
+
+	watchdog := time.After(time.Duration(sc.WatchdogS) * time.Second)
+	if sc.Hazard != "" {
+		// The hazard schedules are sequenced by handshakes. The watchdog measures how long the FINAL
+		// configuration of the model's counterexample persists, so its clock starts when the last
+		// step is taken; getting there may take arbitrarily long on a busy machine.
+		select {
+		case <-r.armed:
+		case <-allDone:
+		case e := <-setupErr:
+			res.Err = e
+			return res
+		case <-time.After(5 * time.Minute):
+			res.Err = "hazard schedule could not be enacted within 5 minutes (machine too slow?)"
 			return res
 		}
+		watchdog = time.After(time.Duration(sc.WatchdogS) * time.Second)
 	}
-	h.gateHits.Store(0)
-	h.released.Store(false)
-
-	var wg sync.WaitGroup
-	allDone := make(chan struct{})
-	budgetDone := make(chan struct{})
-	var budgetWG sync.WaitGroup
-	closerG := sc.Workers
-
-	switch sc.Hazard {
-	case "":
-		for w := 0; w < sc.Workers; w++ {
-			wg.Add(1)
-			budgetWG.Add(1)
-			go func(g int) {
-				defer wg.Done()
-				rng := rand.New(rand.NewSource(sc.Seed*1000003 + int64(g)*7919 + 1))
-				ac := false
-				for i := 0; i < sc.Ops; i++ {
-					ac = r.oneOp(g, rng, false, ac)
-				}
-				budgetWG.Done()
-				<-r.closeRet
-				for i := 0; i < sc.Late; i++ {
-					ac = r.oneOp(g, rng, true, ac)
-				}
-			}(w)
-		}
-		go func() { budgetWG.Wait(); close(budgetDone) }()
-		// the closer: Close is called exactly once, at the seeded moment
-		wg.Add(1)
-		go func() {
-			defer wg.Done()
-			select {
-			case <-r.closeTrig:
-			case <-budgetDone:
-			}
-			r.mu.Lock()
-			for _, oc := range r.open {
-				res.InFlightAtClose = append(res.InFlightAtClose, oc.op)
-			}
-			r.mu.Unlock()
-			sort.Strings(res.InFlightAtClose)
-			r.call(closerG, "close", 0, 0, idx.Close)
-			close(r.closeRet)
-		}()
-	default:
-		runHazard(r, sc, &wg)
-	}
-	go func() { wg.Wait(); close(allDone) }()
-
 	select {
 	case <-allDone:
-	case <-time.After(time.Duration(sc.WatchdogS) * time.Second):
+	case e := <-setupErr:
+		res.Err = e
+		return res
+	case <-watchdog:
 		// watchdog: release every injected delay and apply the deadlock rule
 		h.released.Store(true)
 		select {
@@ -606,6 +637,16 @@ func RunScenario(sc Scenario) *Result {
 	}
 	h.released.Store(true)
 
+	if res.Hang != nil {
+		r.mu.Lock()
+		nOpen := len(r.open)
+		r.mu.Unlock()
+		if nOpen == 0 {
+			res.Hang = nil
+			res.Err = "watchdog fired although no API call was in flight (harness stall)"
+			return res
+		}
+	}
 	if res.Hang != nil {
 		// calls that never returned are recorded with result class "hang"
 		r.mu.Lock()
